@@ -10,12 +10,10 @@ git -C /repo worktree remove --force $wt 2>/dev/null
 git -C /repo worktree add -q --detach $wt HEAD || exit 2
 for id in $ids; do
   prop=$(python3 -c "import json;m=json.load(open('seeded/$id/meta.json'));print(m.get('check_result',{}).get('check') or m['property'])")
-  git -C $wt checkout -q -- . ; git -C $wt clean -qfd
-  if ! git -C $wt apply seeded/$id/patch.diff 2>/dev/null; then
-    if ! git -C $wt apply --3way seeded/$id/patch.diff 2>/dev/null; then
-      echo "$id: PATCH DOES NOT APPLY to $(git -C /repo rev-parse --short HEAD)"; continue
-    fi
-    git -C $wt reset -q
+  git -C $wt reset -q --hard HEAD; git -C $wt clean -qfd
+  if ! git -C $wt apply /verif/seeded/$id/patch.diff 2>/dev/null; then
+    # nothing is touched when a patch no longer applies: it has to be rebased by hand
+    echo "$id: PATCH DOES NOT APPLY to $(git -C /repo rev-parse --short HEAD) -- NEEDS MANUAL REBASE"; continue
   fi
   git -C $wt diff -- src > seeded/$id/patch.diff
   mkdir -p $wt/demo && cp seeded/$id/demo.py $wt/demo/demo.py
